@@ -33,8 +33,9 @@ ASSUMES = ["offenders are inserted at top-level command boundaries, separated fr
            "'^' '.' '-' digits ... belong to the note; after an unknown word blanks + '=' would be a definition)",
            "'~' is an offender only below sutoton::convert (compile_lex): for the public compile it introduces a user definition",
            "at most 25 offenders per source in oracle (2) so that the 30-entry cap of the lexer is not reached; the cap itself is oracle (4)",
-           "line numbers INSIDE multi-line { } blocks are witnessed by the corpus only (IF-then / Sub / tuplet bodies are lexed with the "
-           "line counter taken after the block - reported to the lead)"]
+           "inside blocks offenders and PRINT probes are placed at the command boundaries directly inside top-level Sub{...} and tuplet "
+           "{...} blocks (there '}' is the block's closer, not an offender); IF / FOR / WHILE / FUNCTION bodies and macro bodies are "
+           "covered by the corpus witnesses only"]
 
 UNKNOWN_ASCII = list("!%*+,-.0123456789=\\^hijkmsuwxz}~")
 UNKNOWN_OTHER = ["é", "Ω", "€", "あ", " ", "\u0001", "☃"]
@@ -51,6 +52,21 @@ def top_slots(items):
         out.append(pos)
         pos += 1 if it[0] == "leaf" else 2 + lay.boundaries(it[2])
     out.append(pos)
+    return out
+
+
+def block_slots(items):
+    """slots directly inside a top-level Sub{...} or tuplet {...} block (before each of its commands and before its closer):
+    command boundaries of the block's own lexer run, whose line numbers must be those of the whole source"""
+    out, pos = [], 0
+    for it in items:
+        if it[0] == "block" and it[1] in ("Sub{", "{"):
+            q = pos + 1
+            for ch in it[2]:
+                out.append(q)
+                q += 1 if ch[0] == "leaf" else 2 + lay.boundaries(ch[2])
+            out.append(q)
+        pos += 1 if it[0] == "leaf" else 2 + lay.boundaries(it[2])
     return out
 
 
@@ -102,30 +118,32 @@ def gen_case(rng):
     for s in slots:
         if rng.random() < 0.5:
             lays[s] = lays[s] + rng.choice(["\n", "\n\n", " \n", "\r\n", "\n// x\n", "\n\n\n"])
+    inner = block_slots(items)
+    for s in inner:
+        if rng.random() < 0.5:
+            lays[s] = lays[s] + rng.choice(["\n", "\n\n", " \n", "\n// x\n"])
     n_off = rng.choice([0, 1, 1, 2, 3, 5, 8])
     n_probe = 0 if friendly else rng.choice([0, 1, 2, 4, 6])
     ins = {}   # slot -> list of (kind, text)
+    anywhere = slots + inner
     for _ in range(n_off):
-        s = rng.choice(slots)
+        s = rng.choice(anywhere)
         k = rng.random()
         if k < 0.6:
-            ins.setdefault(s, []).append(("ch", rng.choice(UNKNOWN_ASCII)))
+            # inside a block '}' is not an offender: it closes the block
+            ins.setdefault(s, []).append(("ch", rng.choice([c for c in UNKNOWN_ASCII if c != "}" or s in slots])))
         elif k < 0.7:
             ins.setdefault(s, []).append(("ch", rng.choice(UNKNOWN_OTHER)))
         else:
             ins.setdefault(s, []).append(("word", rng.choice(WORDS)))
     for i in range(n_probe):
-        ins.setdefault(rng.choice(slots), []).append(("probe", "PRINT(%d)" % (1000 + rng.randrange(0, 1000))))
+        ins.setdefault(rng.choice(anywhere), []).append(("probe", "PRINT(%d)" % (1000 + rng.randrange(0, 1000))))
     return items, lays, ins
 
 
 def build(items, lays, ins, with_offenders, lex_only):
     """source text; expected offender entries [(kind, text, line)] and probe entries [(line, number)] in source order"""
     lays2 = list(lays)
-    if not lex_only:
-        # sutoton::convert trims the text: leading blank lines are lost and every line number of the log is too small by
-        # their number (reported; corpus witness "\nPRINT(1)").  The generated stream keeps that class out of the way.
-        lays2[0] = lays2[0].lstrip(" \t\r\n\u3000")
     marks = {}
     for s, lst in ins.items():
         t = lays2[s]
